@@ -66,7 +66,9 @@ v("c09-each-unchecked", ["C09", "C03"], [(E, "\tif !arrObj.Is(object.ARR_OBJ) {\
 v("c09-mod-zero-guard-removed", ["C09", "C01"], [(E, "\tcase \"%\":\n\t\tif rightVal == 0 {\n\t\t\treturn e.newError(leftNode, fail.ErrDivisionByZero)\n\t\t}\n\n", "\tcase \"%\":\n")], rule="R-DIVGUARD")
 v("c09-div-zero-guard-removed", ["C09", "C01"], [(E, "\tcase \"/\":\n\t\tif rightVal == 0 {\n\t\t\treturn e.newError(leftNode, fail.ErrDivisionByZero)\n\t\t}\n\n", "\tcase \"/\":\n")], rule="R-DIVGUARD")
 v("c09-for-post-unguarded", ["C09", "C03"], [(E, "\t\tif node.Post == nil {\n\t\t\tcontinue\n\t\t}\n\n", "")], rule="R-NILFIELD")
-v("c09-for-init-assert", ["C09", "C03"], [(E, "\t\tinitStmt, ok := node.Init.(*ast.AssignStmt)\n\t\tif !ok {\n\t\t\tcontinue\n\t\t}\n", "\t\tinitStmt := node.Init.(*ast.AssignStmt)\n")], rule="R-ASSERT")
+v("c09-for-init-assert", ["C09"], [(E, "\tif initStmt, ok := node.Init.(*ast.AssignStmt); ok {\n\t\treturn initStmt.Name.Value\n\t}\n\n\tstmt, ok := node.Post.(*ast.ExpressionStmt)", "\tif node.Init != nil {\n\t\treturn node.Init.(*ast.AssignStmt).Name.Value\n\t}\n\n\tstmt, ok := node.Post.(*ast.ExpressionStmt)")], rule="R-ASSERT")
+v("c03-for-post-step-lost", ["C03"], [(E, "\tif ident, ok := postfix.Left.(*ast.Identifier); ok {\n\t\treturn ident.Value\n\t}\n\n\treturn \"\"\n}", "\t_ = postfix\n\n\treturn \"\"\n}")], rule="R-LOOP")
+v("c03-for-post-assignment-rebound", ["C03"], [(E, "\t\t// an assignment has already bound its variable\n\t\tif _, isAssign := node.Post.(*ast.AssignStmt); isAssign {\n\t\t\tcontinue\n\t\t}\n\n", "")], rule="R-LOOP")
 v("c09-benign-empty-key-guard-removed", ["C09", "C12"], [(E, "\tif idx == \"\" {\n\t\treturn e.newError(node, fail.ErrPropertyNotFound, idx, object.OBJ_OBJ)\n\t}\n\n", "")], expect="silent", note="since the first letter is decoded as a rune the empty name needs no guard: it is looked up under U+FFFD, not found, and reported")
 v("c09-at-negative", ["C09", "C11"], [("evaluator/str_func.go", "if index < 0 || index >= len(chars) {", "if index >= len(chars) {")], rule="R-BOUNDS")
 v("c09-repeat-negative", ["C09", "C11"], [("evaluator/str_func.go", "count := max(int(firstArg.Value), 0)", "count := int(firstArg.Value)")], rule="R-BOUNDS")
